@@ -22,4 +22,6 @@ def run(rep, tier, seed):
     ]
     for m in MODULES:
         run_contracts(rep, m, tier, seed)
+    from props.tables import run_tables
+    run_tables(rep, rep.prop)
     replay_known_findings(rep)
